@@ -2013,8 +2013,10 @@ theorem openai_finish_agree (v : Variant) (hv : v.toolsStream = false) (hi : v.t
 /-- **the gap of `openai_finish_agree`, on record** (model = code: `toChunk` reads `toolCallSent` before
     `writeResponse` updates it): when the call is completed BY the done chunk's own content, the streamed
     /v1/chat/completions ends with `finish_reason: "stop"` while the non-streamed reply says `tool_calls`.
-    Not reachable with the real runner, whose final message is empty (and llm/server.go delivers a
-    content+done line as two callbacks); the monitors do not evaluate `openai-finish` there. -/
+    **Finding F17f** (confirmed on the real router by `TestVerifC17F17f`, no model involved): `llm.LlamaServer` is an
+    interface and nothing forbids content on the done chunk (the repo's own handler tests feed exactly such a
+    chunk); llama.cpp's runner happens to send an empty final message (and llm/server.go delivers a content+done
+    line as two callbacks), so the shipped runner does not trigger it. -/
 theorem finish_reason_on_done_chunk :
     let v : Variant := ⟨false, true, true, true⟩
     let l : Chunk := ⟨pieceA, true, 0, 5, 7⟩
@@ -2294,5 +2296,18 @@ example :
     ∧ chatPreH { q with empty := true } true (.tok sBoom) = .early sLoad
     ∧ chatPreH q true (.tok sBoom) = .fail 500 sBoom
     ∧ chatPreH q false (.tok sBoom) = .go := by decide
+
+
+/-- **F17f** (genuine, in /repo; model = code): `finish_reason_on_done_chunk` above.  With
+    proposed_fixes/C17-F17f.patch (`oaChatStreamFF`) the same run ends with `tool_calls` on the stream as
+    in the non-streamed reply, and runs whose calls arrive earlier are unchanged. -/
+theorem F17f_repaired_finish_reason :
+    let l : Chunk := ⟨pieceA, true, 0, 5, 7⟩
+    oaFinishes (oaChatStreamFF false ((chatCallback parseF17 true [l] [] 0).map Item.msg) false) = [some sToolCalls]
+    ∧ oaChatStreamFF true ((chatCallback parseF17 true [nd pieceA, fin] [] 0).map Item.msg) false
+        = oaChatStreamFixed true ((chatCallback parseF17 true [nd pieceA, fin] [] 0).map Item.msg) false
+    ∧ oaChatStreamFF true ((chatCallback parseF17 false [nd sHi, fin] [] 0).map Item.msg ++ [Item.err sBoom]) false
+        = oaChatStreamFixed true ((chatCallback parseF17 false [nd sHi, fin] [] 0).map Item.msg ++ [Item.err sBoom]) false := by
+  decide
 
 end OllamaVerif.C17
